@@ -45,6 +45,14 @@ def gen_scenarios(seed, tier):
             yield gen_blocking_nested(rng, i)
         elif i % 12 == 4:
             yield gen_comb_callback(rng, i)
+        elif i % 12 == 10:
+            # cancel() of a retry future at the very instant its running attempt fails and is re-queued: the canceller holds the
+            # future's lock and needs the executor's, the completing pool thread is inside the executor's retry section
+            from props import C06
+            d = C06.gen_running_cancel(rng, i)
+            d.pop("replay_model", None)
+            d["family"] = "running-cancel"
+            yield d
         else:
             d = sc.gen_stack(rng, i, ops=("submit", "cancel", "addcb", "result", "shutdown", "sleep"), tail=(20.0,), shutdown_p=0.12)
             for lay in d["layers"]:
